@@ -31,6 +31,8 @@ const (
 	VerifPointConnClosing       = 14 // connection close: context cancelled and socket closed, before the closed flag is set
 	VerifPointClientSlowPath    = 15 // Client.Conn: no usable connection on the fast path, before the client mutex is taken
 	VerifPointClientConnStarted = 16 // client connect: connection goroutine started, before the connection is added to the client
+	VerifPointRPCClientPolled   = 17 // rpc client channel Receive: polled empty, before the wait
+	VerifPointRPCServerPolled   = 18 // rpc server channel Receive: polled empty, before the wait
 )
 
 // VerifYieldHook is called at the schedule points above (build tag verif only),
@@ -45,6 +47,9 @@ func VerifSetYieldHook(f func(point int)) {
 	}
 	verifYieldHook.Store(&f)
 }
+
+// VerifYield is verifYield for the rpc package.
+func VerifYield(point int) { verifYield(point) }
 
 func verifYield(point int) {
 	if f := verifYieldHook.Load(); f != nil {
